@@ -808,4 +808,585 @@ theorem sh_self_assign_keeps (s : Sh) (h : Nat) (ha : s.alive h = true) :
 example : ∃ s, (Sh.init 2).run [.ctorp 0, .ctorc 1 0, .asgc 0 0, .dtor 0, .asgm 1 1] = some s ∧ s.cnt 0 = 0 ∧
     s.finish.cnt 0 = 1 := ⟨_, rfl, rfl, rfl⟩
 
+/-! ## unique_ptr: ownership invariants for every operation sequence -/
+
+/-- who can own an object in a unique_ptr program: a handle slot, or a raw pointer the program got from `release()` -/
+inductive Holder where
+  | slot (h : Nat)
+  | raw (r : Nat)
+  deriving DecidableEq
+
+/-- what a holder owns -/
+def own (s : Un) : Holder → Option Nat
+  | .slot h => if h < s.k then s.target h else none
+  | .raw r => if r < s.nraw then s.raw r else none
+
+/-- the invariant: as for shared_ptr, plus **every object has at most one owner** -/
+structure OInv (own : Holder → Option Nat) (next : Nat) (cnt : Nat → Nat) : Prop where
+  fresh : ∀ o, next ≤ o → cnt o = 0
+  bound : ∀ x o, own x = some o → o < next
+  live : ∀ o, o < next → (cnt o = 0 ∧ ∃ x, own x = some o) ∨ (cnt o = 1 ∧ ¬ ∃ x, own x = some o)
+  uniq : ∀ x y o, own x = some o → own y = some o → x = y
+
+def UnInv (s : Un) : Prop := OInv (own s) s.next s.cnt
+
+def swapH (x y z : Holder) : Holder := if z = x then y else if z = y then x else z
+
+theorem swapH_invol (x y z : Holder) : swapH x y (swapH x y z) = z := by
+  unfold swapH
+  by_cases h1 : z = x
+  · by_cases h2 : y = x
+    · simp [h1, h2]
+    · simp [h1, h2]
+  · by_cases h2 : z = y
+    · simp [h1, h2]
+    · simp [h1, h2]
+
+/-- ownership moves along a permutation of the holders (swap; move into an empty holder): nothing is destroyed -/
+theorem oinv_perm {ow ow' : Holder → Option Nat} {next : Nat} {cnt : Nat → Nat} (hi : OInv ow next cnt) (x y : Holder)
+    (e : ∀ z, ow' z = ow (swapH x y z)) : OInv ow' next cnt := by
+  refine ⟨hi.fresh, fun z o h => hi.bound _ o (e z ▸ h), fun o ho => ?_, fun z1 z2 o h1 h2 => ?_⟩
+  · rcases hi.live o ho with ⟨a, z, hz⟩ | ⟨a, b⟩
+    · exact Or.inl ⟨a, swapH x y z, by rw [e, swapH_invol]; exact hz⟩
+    · exact Or.inr ⟨a, fun ⟨z, hz⟩ => b ⟨swapH x y z, e z ▸ hz⟩⟩
+  · have := hi.uniq _ _ o (e z1 ▸ h1) (e z2 ▸ h2)
+    have := congrArg (swapH x y) this
+    rwa [swapH_invol, swapH_invol] at this
+
+theorem oinv_same {ow ow' : Holder → Option Nat} {next : Nat} {cnt : Nat → Nat} (hi : OInv ow next cnt)
+    (e : ∀ z, ow' z = ow z) : OInv ow' next cnt := by
+  have : ow' = ow := funext e
+  rw [this]; exact hi
+
+/-- `delete` of what holder `x` owns: that object (and only it) is destroyed, once -/
+theorem oinv_kill {ow ow' : Holder → Option Nat} {next : Nat} {cnt : Nat → Nat} (hi : OInv ow next cnt) (x : Holder) (o : Nat)
+    (hx : ow x = some o) (e : ∀ z, ow' z = if z = x then none else ow z) : OInv ow' next (upd cnt o (cnt o + 1)) := by
+  have ho : o < next := hi.bound x o hx
+  have hc : cnt o = 0 := by
+    rcases hi.live o ho with ⟨a, _⟩ | ⟨_, b⟩
+    · exact a
+    · exact absurd ⟨x, hx⟩ b
+  have sub : ∀ z o', ow' z = some o' → ow z = some o' := by
+    intro z o' h
+    rw [e] at h
+    by_cases c : z = x
+    · simp [c] at h
+    · simpa [c] using h
+  refine ⟨fun o' ho' => ?_, fun z o' h => hi.bound z o' (sub z o' h), fun o' ho' => ?_,
+    fun z1 z2 o' h1 h2 => hi.uniq z1 z2 o' (sub _ _ h1) (sub _ _ h2)⟩
+  · have : o' ≠ o := by omega
+    simp only [upd, this, if_false]; exact hi.fresh o' ho'
+  · by_cases c : o' = o
+    · subst c
+      refine Or.inr ⟨by simp [upd, hc], fun ⟨z, hz⟩ => ?_⟩
+      have h1 := sub z o' hz
+      have := hi.uniq z x o' h1 hx
+      subst this
+      rw [e] at hz; simp at hz
+    · simp only [upd, c, if_false]
+      rcases hi.live o' ho' with ⟨a, z, hz⟩ | ⟨a, b⟩
+      · refine Or.inl ⟨a, z, ?_⟩
+        rw [e]
+        have : z ≠ x := fun c2 => by subst c2; rw [hx] at hz; simp at hz; exact c hz.symm
+        simp [this, hz]
+      · exact Or.inr ⟨a, fun ⟨z, hz⟩ => b ⟨z, sub z o' hz⟩⟩
+
+/-- a new object goes to an empty holder -/
+theorem oinv_alloc {ow ow' : Holder → Option Nat} {next : Nat} {cnt : Nat → Nat} (hi : OInv ow next cnt) (x : Holder)
+    (hx : ow x = none) (e : ∀ z, ow' z = if z = x then some next else ow z) : OInv ow' (next + 1) cnt := by
+  refine ⟨fun o ho => hi.fresh o (by omega), fun z o h => ?_, fun o ho => ?_, fun z1 z2 o h1 h2 => ?_⟩
+  · rw [e] at h
+    by_cases c : z = x
+    · simp [c] at h; omega
+    · simp [c] at h; have := hi.bound z o h; omega
+  · by_cases c : o = next
+    · exact Or.inl ⟨hi.fresh o (by omega), x, by rw [e]; simp [c]⟩
+    · rcases hi.live o (by omega) with ⟨a, z, hz⟩ | ⟨a, b⟩
+      · refine Or.inl ⟨a, z, ?_⟩
+        rw [e]
+        have : z ≠ x := fun c2 => by subst c2; rw [hx] at hz; cases hz
+        simp [this, hz]
+      · refine Or.inr ⟨a, fun ⟨z, hz⟩ => ?_⟩
+        rw [e] at hz
+        by_cases c2 : z = x
+        · simp [c2] at hz; exact c hz.symm
+        · simp [c2] at hz; exact b ⟨z, hz⟩
+  · rw [e] at h1 h2
+    by_cases c1 : z1 = x
+    · by_cases c2 : z2 = x
+      · rw [c1, c2]
+      · simp [c1] at h1; simp [c2] at h2
+        have := hi.bound z2 o h2; omega
+    · by_cases c2 : z2 = x
+      · simp [c2] at h2; simp [c1] at h1
+        have := hi.bound z1 o h1; omega
+      · simp [c1] at h1; simp [c2] at h2
+        exact hi.uniq z1 z2 o h1 h2
+
+@[simp] theorem delete_slot (s : Un) (t : Option Nat) : (s.delete t).slot = s.slot := by cases t <;> rfl
+@[simp] theorem delete_k (s : Un) (t : Option Nat) : (s.delete t).k = s.k := by cases t <;> rfl
+@[simp] theorem delete_raw (s : Un) (t : Option Nat) : (s.delete t).raw = s.raw := by cases t <;> rfl
+@[simp] theorem delete_nraw (s : Un) (t : Option Nat) : (s.delete t).nraw = s.nraw := by cases t <;> rfl
+@[simp] theorem delete_next (s : Un) (t : Option Nat) : (s.delete t).next = s.next := by cases t <;> rfl
+
+/-- ownership after `delete` of slot `h`'s target, the slot itself left without target -/
+def ownD (s : Un) (h : Nat) : Holder → Option Nat := fun z => if z = Holder.slot h then none else own s z
+
+theorem un_drop {s : Un} (hi : UnInv s) {h : Nat} (hh : h < s.k) :
+    OInv (ownD s h) (s.delete (s.target h)).next (s.delete (s.target h)).cnt := by
+  rw [delete_next]
+  have hown : own s (.slot h) = s.target h := by simp [own, hh]
+  cases ht : s.target h with
+  | none =>
+    refine oinv_same hi (fun z => ?_)
+    unfold ownD
+    by_cases c : z = Holder.slot h
+    · simp [c, hown, ht]
+    · simp [c]
+  | some o =>
+    exact oinv_kill hi (.slot h) o (by rw [hown, ht]) (fun z => rfl)
+
+theorem un_vacant_iff (s : Un) (h : Nat) : s.vacant h = true ↔ h < s.k ∧ s.slot h = none := by
+  unfold Un.vacant; simp
+
+theorem un_alive_iff (s : Un) (h : Nat) : s.alive h = true ↔ h < s.k ∧ s.slot h ≠ none := by
+  unfold Un.alive; simp
+
+theorem own_init (k : Nat) (z : Holder) : own (Un.init k) z = none := by
+  cases z with
+  | slot h => by_cases c : h < k <;> simp [own, Un.init, Un.target, c]
+  | raw r => simp [own, Un.init]
+
+theorem un_inv_init (k : Nat) : UnInv (Un.init k) := by
+  refine ⟨fun _ _ => rfl, fun x o h => ?_, fun o h => ?_, fun x y o h => ?_⟩
+  · rw [own_init] at h; cases h
+  · simp [Un.init] at h
+  · rw [own_init] at h; cases h
+
+theorem holder_slot_ne {a b : Nat} (h : a ≠ b) : Holder.slot a ≠ Holder.slot b := fun e => h (Holder.slot.inj e)
+
+/-- the slot ends without target after its old target was deleted: dtor, `= nullptr`, `reset()`, conversion to std -/
+theorem un_inv_drop {s : Un} (hi : UnInv s) {h : Nat} (hh : h < s.k) (v : Slot) (hv : v = none ∨ v = some none) :
+    UnInv { s.delete (s.target h) with slot := upd (s.delete (s.target h)).slot h v } := by
+  show OInv (own _) (s.delete (s.target h)).next (s.delete (s.target h)).cnt
+  refine oinv_same (un_drop hi hh) (fun z => ?_)
+  unfold ownD
+  cases z with
+  | slot a =>
+    by_cases c : a = h
+    · subst c
+      rcases hv with hv | hv <;> simp [own, Un.target, upd, hv]
+    · simp [own, Un.target, upd, c, holder_slot_ne c]
+  | raw r => simp [own]
+
+/-- the slot gets a new object after its old target was deleted: `reset(new P)`, assignment from a temporary -/
+theorem un_inv_renew {s : Un} (hi : UnInv s) {h : Nat} (hh : h < s.k) :
+    UnInv { s.reset h (some s.next) with next := s.next + 1 } := by
+  show OInv (own _) (s.next + 1) (s.delete (s.target h)).cnt
+  unfold Un.reset
+  have h1 := un_drop hi hh
+  rw [delete_next] at h1
+  refine oinv_alloc h1 (.slot h) (by simp [ownD]) (fun z => ?_)
+  unfold ownD
+  cases z with
+  | slot a =>
+    by_cases c : a = h
+    · subst c; simp [own, Un.target, upd, hh]
+    · simp [own, Un.target, upd, c, holder_slot_ne c]
+  | raw r => simp [own]
+
+theorem holder_slot_raw (a b : Nat) : Holder.slot a ≠ Holder.raw b := fun e => Holder.noConfusion e
+theorem holder_raw_ne {a b : Nat} (h : a ≠ b) : Holder.raw a ≠ Holder.raw b := fun e => h (Holder.raw.inj e)
+
+theorem getD_of_ne_none {x : Slot} (h : x ≠ none) : some (x.getD none) = x := by
+  cases x with
+  | none => exact absurd rfl h
+  | some t => rfl
+
+/-- every operation preserves the invariant -/
+theorem un_inv_step {s s' : Un} {op : UnOp} {ob : PtrObs} (hi : UnInv s) (h : s.step op = some (s', ob)) : UnInv s' := by
+  cases op with
+  | ctor h0 =>
+    simp only [Un.step] at h
+    split at h
+    · rename_i hv
+      obtain ⟨hk, hs⟩ := (un_vacant_iff s h0).mp hv
+      simp only [Option.some.injEq, Prod.mk.injEq] at h; obtain ⟨h1, _⟩ := h; subst h1
+      refine oinv_same hi (fun z => ?_)
+      cases z with
+      | slot a =>
+        by_cases c : a = h0
+        · subst c; simp [own, Un.target, upd, hs]
+        · simp [own, Un.target, upd, c]
+      | raw r => simp [own]
+    · simp at h
+  | ctorp h0 =>
+    simp only [Un.step] at h
+    split at h
+    · rename_i hv
+      obtain ⟨hk, hs⟩ := (un_vacant_iff s h0).mp hv
+      simp only [Option.some.injEq, Prod.mk.injEq] at h; obtain ⟨h1, _⟩ := h; subst h1
+      refine oinv_alloc hi (.slot h0) (by simp [own, Un.target, hs]) (fun z => ?_)
+      cases z with
+      | slot a =>
+        by_cases c : a = h0
+        · subst c; simp [own, Un.target, upd, hk]
+        · simp [own, Un.target, upd, c, holder_slot_ne c]
+      | raw r => simp [own, (holder_slot_raw h0 r).symm]
+    · simp at h
+  | ctorm h0 g =>
+    simp only [Un.step] at h
+    split at h
+    · rename_i hv
+      obtain ⟨hk, hs⟩ := (un_vacant_iff s h0).mp hv.1
+      obtain ⟨hg, hgs⟩ := (un_alive_iff s g).mp hv.2
+      simp only [Option.some.injEq, Prod.mk.injEq] at h; obtain ⟨h1, _⟩ := h; subst h1
+      have hne : h0 ≠ g := fun e => hgs (e ▸ hs)
+      refine oinv_perm hi (.slot h0) (.slot g) (fun z => ?_)
+      unfold swapH
+      cases z with
+      | slot a =>
+        by_cases c : a = h0
+        · subst c; simp [own, Un.target, upd, hk, hg]
+        · by_cases c2 : a = g
+          · subst c2
+            have : a ≠ h0 := c
+            simp [own, Un.target, upd, c, hk, hg, hs, holder_slot_ne c]
+          · simp [own, Un.target, upd, c, c2, holder_slot_ne c, holder_slot_ne c2]
+      | raw r => simp [own, (holder_slot_raw h0 r).symm, (holder_slot_raw g r).symm]
+    · simp at h
+  | dtor h0 =>
+    simp only [Un.step] at h
+    split at h
+    · rename_i hv
+      obtain ⟨hk, _⟩ := (un_alive_iff s h0).mp hv
+      simp only [Option.some.injEq, Prod.mk.injEq] at h; obtain ⟨h1, _⟩ := h; subst h1
+      exact un_inv_drop hi hk none (Or.inl rfl)
+    · simp at h
+  | asgm h0 g =>
+    simp only [Un.step] at h
+    split at h
+    · rename_i hv
+      obtain ⟨hk, hhs⟩ := (un_alive_iff s h0).mp hv.1
+      obtain ⟨hg, hgs⟩ := (un_alive_iff s g).mp hv.2
+      simp only [Option.some.injEq, Prod.mk.injEq] at h; obtain ⟨h1, _⟩ := h; subst h1
+      by_cases e : h0 = g
+      · subst e
+        -- self move-assignment: release() empties the handle, reset(p) finds nothing to delete and stores p back
+        have ht : ({ s with slot := upd s.slot h0 (some none) } : Un).target h0 = none := by simp [Un.target, upd]
+        show OInv (own _) _ _
+        unfold Un.reset
+        rw [ht]
+        refine oinv_same hi (fun z => ?_)
+        cases z with
+        | slot a =>
+          by_cases c : a = h0
+          · subst c; simp [own, Un.target, upd, Un.delete]
+          · simp [own, Un.target, upd, c, Un.delete]
+        | raw r => rfl
+      · have ht : ({ s with slot := upd s.slot g (some none) } : Un).target h0 = s.target h0 := by
+          simp [Un.target, upd, e]
+        show OInv (own _) _ _
+        unfold Un.reset
+        rw [ht]
+        have h1 := un_drop hi hk
+        have hc : ({ s with slot := upd s.slot g (some none) } : Un).delete (s.target h0) =
+            { s.delete (s.target h0) with slot := upd s.slot g (some none) } := by
+          cases s.target h0 <;> rfl
+        rw [hc]
+        refine oinv_perm h1 (.slot h0) (.slot g) (fun z => ?_)
+        unfold swapH ownD
+        have e' : g ≠ h0 := fun x => e x.symm
+        cases z with
+        | slot a =>
+          by_cases c : a = h0
+          · subst c; simp [own, Un.target, upd, hk, hg, holder_slot_ne e']
+          · by_cases c2 : a = g
+            · subst c2; simp [own, Un.target, upd, c, hk, hg, holder_slot_ne c]
+            · simp [own, Un.target, upd, c, c2, holder_slot_ne c, holder_slot_ne c2]
+        | raw r => simp [own, (holder_slot_raw h0 r).symm, (holder_slot_raw g r).symm]
+    · simp at h
+  | asgn h0 =>
+    simp only [Un.step] at h
+    split at h
+    · rename_i hv
+      obtain ⟨hk, _⟩ := (un_alive_iff s h0).mp hv
+      simp only [Option.some.injEq, Prod.mk.injEq] at h; obtain ⟨h1, _⟩ := h; subst h1
+      exact un_inv_drop hi hk (some none) (Or.inr rfl)
+    · simp at h
+  | asgp h0 =>
+    simp only [Un.step] at h
+    split at h
+    · rename_i hv
+      obtain ⟨hk, _⟩ := (un_alive_iff s h0).mp hv
+      simp only [Option.some.injEq, Prod.mk.injEq] at h; obtain ⟨h1, _⟩ := h; subst h1
+      exact un_inv_renew hi hk
+    · simp at h
+  | reset h0 =>
+    simp only [Un.step] at h
+    split at h
+    · rename_i hv
+      obtain ⟨hk, _⟩ := (un_alive_iff s h0).mp hv
+      simp only [Option.some.injEq, Prod.mk.injEq] at h; obtain ⟨h1, _⟩ := h; subst h1
+      exact un_inv_drop hi hk (some none) (Or.inr rfl)
+    · simp at h
+  | resetp h0 =>
+    simp only [Un.step] at h
+    split at h
+    · rename_i hv
+      obtain ⟨hk, _⟩ := (un_alive_iff s h0).mp hv
+      simp only [Option.some.injEq, Prod.mk.injEq] at h; obtain ⟨h1, _⟩ := h; subst h1
+      exact un_inv_renew hi hk
+    · simp at h
+  | release h0 =>
+    simp only [Un.step] at h
+    split at h
+    · rename_i hv
+      obtain ⟨hk, _⟩ := (un_alive_iff s h0).mp hv
+      simp only [Option.some.injEq, Prod.mk.injEq] at h; obtain ⟨h1, _⟩ := h; subst h1
+      refine oinv_perm hi (.slot h0) (.raw s.nraw) (fun z => ?_)
+      unfold swapH
+      cases z with
+      | slot a =>
+        by_cases c : a = h0
+        · subst c; simp [own, Un.target, upd]
+        · simp [own, Un.target, upd, c, holder_slot_ne c, holder_slot_raw]
+      | raw r =>
+        by_cases c : r = s.nraw
+        · simp [own, upd, c, hk, (holder_slot_raw h0 s.nraw).symm]
+        · have c1 : (r < s.nraw + 1) = (r < s.nraw) := by
+            apply propext; constructor <;> intro x <;> omega
+          simp [own, upd, c, c1, (holder_slot_raw h0 r).symm, holder_raw_ne c]
+    · simp at h
+  | adopt h0 r =>
+    simp only [Un.step] at h
+    split at h
+    · rename_i hv
+      obtain ⟨hk, _⟩ := (un_alive_iff s h0).mp hv.1
+      obtain ⟨hr, _⟩ := hv.2
+      simp only [Option.some.injEq, Prod.mk.injEq] at h; obtain ⟨h1, _⟩ := h; subst h1
+      show OInv (own _) _ _
+      unfold Un.reset
+      refine oinv_perm (un_drop hi hk) (.slot h0) (.raw r) (fun z => ?_)
+      unfold swapH ownD
+      cases z with
+      | slot a =>
+        by_cases c : a = h0
+        · subst c; simp [own, Un.target, upd, hk, hr, (holder_slot_raw a r).symm]
+        · simp [own, Un.target, upd, c, holder_slot_ne c, holder_slot_raw]
+      | raw q =>
+        by_cases c : q = r
+        · subst c; simp [own, upd, (holder_slot_raw h0 q).symm]
+        · simp [own, upd, c, (holder_slot_raw h0 q).symm, holder_raw_ne c]
+    · simp at h
+  | del r =>
+    simp only [Un.step] at h
+    split at h
+    · rename_i hv
+      obtain ⟨hr, hsome⟩ := hv
+      simp only [Option.some.injEq, Prod.mk.injEq] at h; obtain ⟨h1, _⟩ := h; subst h1
+      cases hraw : s.raw r with
+      | none => rw [hraw] at hsome; simp at hsome
+      | some o =>
+        show OInv (own { s with raw := upd s.raw r none, cnt := upd s.cnt o (s.cnt o + 1) }) s.next (upd s.cnt o (s.cnt o + 1))
+        refine oinv_kill hi (.raw r) o (by simp [own, hr, hraw]) (fun z => ?_)
+        cases z with
+        | slot a => simp [own, Un.target, holder_slot_raw a r]
+        | raw q =>
+          by_cases c : q = r
+          · simp [own, upd, c]
+          · simp [own, upd, c, holder_raw_ne c]
+    · simp at h
+  | swap h0 g =>
+    simp only [Un.step] at h
+    split at h
+    · rename_i hv
+      obtain ⟨hk, _⟩ := (un_alive_iff s h0).mp hv.1
+      obtain ⟨hg, _⟩ := (un_alive_iff s g).mp hv.2
+      simp only [Option.some.injEq, Prod.mk.injEq] at h; obtain ⟨h1, _⟩ := h; subst h1
+      refine oinv_perm hi (.slot h0) (.slot g) (fun z => ?_)
+      unfold swapH
+      cases z with
+      | slot a =>
+        by_cases c : a = g
+        · subst c
+          by_cases c2 : a = h0
+          · subst c2; simp [own, Un.target, upd]
+          · simp [own, Un.target, upd, c2, hk, hg, holder_slot_ne c2]
+        · by_cases c2 : a = h0
+          · subst c2; simp [own, Un.target, upd, c, hk, hg]
+          · simp [own, Un.target, upd, c, c2, holder_slot_ne c, holder_slot_ne c2]
+      | raw r => simp [own, (holder_slot_raw h0 r).symm, (holder_slot_raw g r).symm]
+    · simp at h
+  | tostd h0 =>
+    simp only [Un.step] at h
+    split at h
+    · rename_i hv
+      obtain ⟨hk, _⟩ := (un_alive_iff s h0).mp hv
+      simp only [Option.some.injEq, Prod.mk.injEq] at h; obtain ⟨h1, _⟩ := h; subst h1
+      exact un_inv_drop hi hk (some none) (Or.inr rfl)
+    · simp at h
+  | get h0 =>
+    simp only [Un.step] at h
+    split at h
+    · simp only [Option.some.injEq, Prod.mk.injEq] at h; obtain ⟨h1, _⟩ := h; subst h1; exact hi
+    · simp at h
+  | eq h0 g =>
+    simp only [Un.step] at h
+    split at h
+    · simp only [Option.some.injEq, Prod.mk.injEq] at h; obtain ⟨h1, _⟩ := h; subst h1; exact hi
+    · simp at h
+
+/-- **the invariant holds after every operation sequence** -/
+theorem un_inv_run : ∀ (ops : List UnOp) (s s' : Un), UnInv s → s.run ops = some s' → UnInv s'
+  | [], s, s', hi, h => by simp [Un.run] at h; subst h; exact hi
+  | o :: os, s, s', hi, h => by
+    simp only [Un.run] at h
+    cases hs : s.step o with
+    | none => simp [hs] at h
+    | some x =>
+      obtain ⟨s1, ob⟩ := x
+      simp only [hs] at h
+      exact un_inv_run os s1 s' (un_inv_step hi hs) h
+
+/-- **no use after destroy**: whatever a handle or a released raw pointer refers to is a created object whose
+    destructor has not run -/
+theorem un_no_use_after_destroy (k : Nat) (ops : List UnOp) (s : Un) (h : (Un.init k).run ops = some s)
+    (x : Holder) (o : Nat) (hx : own s x = some o) : o < s.next ∧ s.cnt o = 0 := by
+  have hi := un_inv_run ops _ s (un_inv_init k) h
+  have ho := hi.bound x o hx
+  refine ⟨ho, ?_⟩
+  rcases hi.live o ho with ⟨a, _⟩ | ⟨_, b⟩
+  · exact a
+  · exact absurd ⟨x, hx⟩ b
+
+theorem un_never_destroyed_twice (k : Nat) (ops : List UnOp) (s : Un) (h : (Un.init k).run ops = some s) (o : Nat) :
+    s.cnt o ≤ 1 := by
+  have hi := un_inv_run ops _ s (un_inv_init k) h
+  rcases Nat.lt_or_ge o s.next with ho | ho
+  · rcases hi.live o ho with ⟨a, _⟩ | ⟨a, _⟩ <;> omega
+  · rw [hi.fresh o ho]; omega
+
+/-- **ownership is unique**: no two holders (handles or released raw pointers) ever own the same object -/
+theorem un_unique_owner (k : Nat) (ops : List UnOp) (s : Un) (h : (Un.init k).run ops = some s)
+    (x y : Holder) (o : Nat) (hx : own s x = some o) (hy : own s y = some o) : x = y :=
+  (un_inv_run ops _ s (un_inv_init k) h).uniq x y o hx hy
+
+theorem stepD_inv {s : Un} (hi : UnInv s) (op : UnOp) : UnInv (s.stepD op) := by
+  unfold Un.stepD
+  cases hs : s.step op with
+  | none => exact hi
+  | some x => exact un_inv_step hi hs
+
+theorem dtor_facts (s : Un) (h : Nat) :
+    (s.stepD (.dtor h)).k = s.k ∧ (s.stepD (.dtor h)).nraw = s.nraw ∧ (s.stepD (.dtor h)).raw = s.raw ∧
+    (s.stepD (.dtor h)).next = s.next ∧ (h < s.k → (s.stepD (.dtor h)).slot h = none) ∧
+    ∀ a, a ≠ h → (s.stepD (.dtor h)).slot a = s.slot a := by
+  unfold Un.stepD
+  simp only [Un.step]
+  split
+  · rename_i s' ob heq
+    split at heq
+    · simp only [Option.some.injEq, Prod.mk.injEq] at heq
+      obtain ⟨h1, _⟩ := heq
+      subst h1
+      refine ⟨by simp, by simp, by simp, by simp, fun _ => by simp [upd], fun a ha => by simp [upd, ha]⟩
+    · cases heq
+  · rename_i heq
+    split at heq
+    · cases heq
+    · rename_i hna
+      refine ⟨rfl, rfl, rfl, rfl, fun hk => ?_, fun _ _ => rfl⟩
+      by_cases e : s.slot h = none
+      · exact e
+      · exact absurd ((un_alive_iff s h).mpr ⟨hk, e⟩) hna
+
+theorem del_facts (s : Un) (r : Nat) :
+    (s.stepD (.del r)).k = s.k ∧ (s.stepD (.del r)).slot = s.slot ∧ (s.stepD (.del r)).nraw = s.nraw ∧
+    (s.stepD (.del r)).next = s.next ∧ (r < s.nraw → (s.stepD (.del r)).raw r = none) ∧
+    ∀ q, q ≠ r → (s.stepD (.del r)).raw q = s.raw q := by
+  unfold Un.stepD
+  simp only [Un.step]
+  split
+  · rename_i s' ob heq
+    split at heq
+    · simp only [Option.some.injEq, Prod.mk.injEq] at heq
+      obtain ⟨h1, _⟩ := heq
+      subst h1
+      refine ⟨by simp, by simp, by simp, by simp, fun _ => by simp [upd], fun a ha => by simp [upd, ha]⟩
+    · cases heq
+  · rename_i heq
+    split at heq
+    · cases heq
+    · rename_i hna
+      refine ⟨rfl, rfl, rfl, rfl, fun hk => ?_, fun _ _ => rfl⟩
+      cases e : s.raw r with
+      | none => rfl
+      | some o => exact absurd ⟨hk, by simp [e]⟩ hna
+
+theorem finishSlots_facts (s : Un) (hi : UnInv s) : ∀ n, n ≤ s.k →
+    UnInv (s.finishSlots n) ∧ (s.finishSlots n).k = s.k ∧ (s.finishSlots n).nraw = s.nraw ∧
+    ∀ h, h < n → (s.finishSlots n).slot h = none
+  | 0, _ => ⟨hi, rfl, rfl, fun _ h => absurd h (Nat.not_lt_zero _)⟩
+  | n + 1, hn => by
+    obtain ⟨i1, i2, i3, i4⟩ := finishSlots_facts s hi n (by omega)
+    obtain ⟨d1, d2, _, _, d5, d6⟩ := dtor_facts (s.finishSlots n) n
+    simp only [Un.finishSlots]
+    refine ⟨stepD_inv i1 _, by rw [d1, i2], by rw [d2, i3], fun h hh => ?_⟩
+    by_cases e : h = n
+    · subst e; exact d5 (by rw [i2]; omega)
+    · rw [d6 h e]; exact i4 h (by omega)
+
+theorem finishRaws_facts (s : Un) (hi : UnInv s) : ∀ n, n ≤ s.nraw →
+    UnInv (s.finishRaws n) ∧ (s.finishRaws n).k = s.k ∧ (s.finishRaws n).slot = s.slot ∧ (s.finishRaws n).nraw = s.nraw ∧
+    (s.finishRaws n).next = s.next ∧ ∀ r, r < n → (s.finishRaws n).raw r = none
+  | 0, _ => ⟨hi, rfl, rfl, rfl, rfl, fun _ h => absurd h (Nat.not_lt_zero _)⟩
+  | n + 1, hn => by
+    obtain ⟨i1, i2, i3, i4, i5, i6⟩ := finishRaws_facts s hi n (by omega)
+    obtain ⟨d1, d2, d3, d4, d5, d6⟩ := del_facts (s.finishRaws n) n
+    simp only [Un.finishRaws]
+    refine ⟨stepD_inv i1 _, by rw [d1, i2], by rw [d2, i3], by rw [d3, i4], by rw [d4, i5], fun r hr => ?_⟩
+    by_cases e : r = n
+    · subst e; exact d5 (by rw [i4]; omega)
+    · rw [d6 r e]; exact i6 r (by omega)
+
+/-- at any moment every created object is either live and owned, or destroyed exactly once and owned by nobody -/
+theorem un_owned_or_destroyed_once (k : Nat) (ops : List UnOp) (s : Un) (h : (Un.init k).run ops = some s) (o : Nat)
+    (ho : o < s.next) : (s.cnt o = 0 ∧ ∃ x, own s x = some o) ∨ (s.cnt o = 1 ∧ ¬ ∃ x, own s x = some o) :=
+  (un_inv_run ops _ s (un_inv_init k) h).live o ho
+
+/-- **exactly one destruction per managed object**: once the handles are destroyed and the released pointers deleted,
+    every object that was ever created has been destroyed exactly once — for every operation sequence -/
+theorem un_each_object_destroyed_exactly_once (k : Nat) (ops : List UnOp) (s : Un) (h : (Un.init k).run ops = some s)
+    (o : Nat) (ho : o < s.next) : s.finish.cnt o = 1 := by
+  have hi := un_inv_run ops _ s (un_inv_init k) h
+  obtain ⟨a1, a2, a3, a4⟩ := finishSlots_facts s hi s.k (Nat.le_refl _)
+  obtain ⟨b1, b2, b3, b4, b5, b6⟩ := finishRaws_facts (s.finishSlots s.k) a1 (s.finishSlots s.k).nraw (Nat.le_refl _)
+  have hnext : (s.finishSlots s.k).next = s.next := by
+    have : ∀ n, (s.finishSlots n).next = s.next := by
+      intro n
+      induction n with
+      | zero => rfl
+      | succ n ih => simp only [Un.finishSlots]; rw [(dtor_facts _ n).2.2.2.1, ih]
+    exact this s.k
+  show (Un.finishRaws (s.finishSlots s.k) (s.finishSlots s.k).nraw).cnt o = 1
+  rcases b1.live o (by rw [b5, hnext]; exact ho) with ⟨_, x, hx⟩ | ⟨a, _⟩
+  · exfalso
+    cases x with
+    | slot a =>
+      simp only [own, Un.target] at hx
+      rw [b2, b3] at hx
+      by_cases c : a < (s.finishSlots s.k).k
+      · rw [a2] at c; simp [a2, c, a4 a c] at hx
+      · simp [c] at hx
+    | raw r =>
+      simp only [own] at hx
+      by_cases c : r < (Un.finishRaws (s.finishSlots s.k) (s.finishSlots s.k).nraw).nraw
+      · rw [b4] at c; simp [b4, c, b6 r c] at hx
+      · simp [c] at hx
+  · exact a
+
+example : ∃ s, (Un.init 2).run [.ctorp 0, .ctor 1, .asgm 1 0, .asgm 1 1, .release 1, .resetp 0, .adopt 1 0] = some s ∧
+    s.cnt 0 = 0 ∧ s.finish.cnt 0 = 1 ∧ s.finish.cnt 1 = 1 := ⟨_, rfl, rfl, rfl, rfl⟩
+
 end Otel.C20
